@@ -263,7 +263,7 @@ func c07alias(p *Program, r *Report, rule string) {
 			}
 			released := false
 			for _, op := range la.releases {
-				if op.Fn == fn && op.Lock == o.lock {
+				if p.FuncName(op.Fn) == p.FuncName(fn) && op.Lock == o.lock {
 					released = true
 				}
 			}
